@@ -26,7 +26,15 @@ const (
 	tInt
 )
 
+// a byte-slice value the translator can follow: one of the two 20-byte inputs from an offset
+type sliceVal struct {
+	src string // "ih" | "pid"
+	off int
+}
+
 type rtr struct {
+	helpers map[string]*ast.FuncDecl // unexported straight-line helpers of the package, inlined at their calls
+	slices  map[string]sliceVal      // byte-slice parameters of the helper being inlined
 	env   map[string]ty
 	funcs map[string][]ty // result types of translated functions
 	lines []string
@@ -97,6 +105,9 @@ func (t *rtr) expr(e ast.Expr) (string, ty, error) {
 		}
 		return "", 0, fmt.Errorf("unsupported binary %s", x.Op)
 	case *ast.CallExpr:
+		if id, ok := x.Fun.(*ast.Ident); ok && t.helpers[id.Name] != nil {
+			return t.inline(t.helpers[id.Name], x.Args)
+		}
 		if id, ok := x.Fun.(*ast.Ident); ok && len(x.Args) == 1 {
 			s, _, err := t.expr(x.Args[0])
 			if err != nil {
@@ -112,30 +123,132 @@ func (t *rtr) expr(e ast.Expr) (string, ty, error) {
 		// binary.BigEndian.Uint64(req.InfoHash[:8]) etc.
 		if sel, ok := x.Fun.(*ast.SelectorExpr); ok && sel.Sel.Name == "Uint64" && len(x.Args) == 1 {
 			if sl, ok := x.Args[0].(*ast.SliceExpr); ok {
-				base := exprString(sl.X)
-				var src string
-				switch base {
-				case "req.InfoHash":
-					src = "ih"
-				case "req.Peer.ID", "req.ID":
-					src = "pid"
-				default:
-					return "", 0, fmt.Errorf("unsupported slice base %s", base)
+				base, err := t.sliceOf(sl.X)
+				if err != nil {
+					return "", 0, err
 				}
-				lo, hi := "0", ""
+				lo := 0
 				if sl.Low != nil {
-					lo = exprString(sl.Low)
+					if lo, err = intLit(sl.Low); err != nil {
+						return "", 0, err
+					}
 				}
 				if sl.High == nil {
 					return "", 0, fmt.Errorf("open-ended slice")
 				}
-				hi = exprString(sl.High)
-				return fmt.Sprintf("(be64At %s %s %s)", src, lo, hi), tU64, nil
+				hi, err := intLit(sl.High)
+				if err != nil {
+					return "", 0, err
+				}
+				return fmt.Sprintf("(be64At %s %d %d)", base.src, base.off+lo, base.off+hi), tU64, nil
 			}
+		}
+		// a call of an unexported straight-line helper of the package: inlined
+		if id, ok := x.Fun.(*ast.Ident); ok && t.helpers[id.Name] != nil {
+			return t.inline(t.helpers[id.Name], x.Args)
 		}
 		return "", 0, fmt.Errorf("unsupported call %s", exprString(x.Fun))
 	}
 	return "", 0, fmt.Errorf("unsupported expression %T", e)
+}
+
+func intLit(e ast.Expr) (int, error) {
+	if bl, ok := e.(*ast.BasicLit); ok && bl.Kind == token.INT {
+		var n int
+		_, err := fmt.Sscan(bl.Value, &n)
+		return n, err
+	}
+	return 0, fmt.Errorf("slice bound is not an integer literal")
+}
+
+// sliceOf follows a byte-slice expression back to one of the two 20-byte inputs
+func (t *rtr) sliceOf(e ast.Expr) (sliceVal, error) {
+	switch x := e.(type) {
+	case *ast.ParenExpr:
+		return t.sliceOf(x.X)
+	case *ast.Ident:
+		if v, ok := t.slices[x.Name]; ok {
+			return v, nil
+		}
+	case *ast.SelectorExpr:
+		switch exprString(x) {
+		case "req.InfoHash":
+			return sliceVal{"ih", 0}, nil
+		case "req.Peer.ID", "req.ID":
+			return sliceVal{"pid", 0}, nil
+		}
+	case *ast.SliceExpr:
+		b, err := t.sliceOf(x.X)
+		if err != nil {
+			return b, err
+		}
+		if x.Low != nil {
+			lo, err := intLit(x.Low)
+			if err != nil {
+				return b, err
+			}
+			b.off += lo
+		}
+		return b, nil
+	}
+	return sliceVal{}, fmt.Errorf("unsupported byte-slice expression %s", exprString(e))
+}
+
+// inline translates a call of a helper `func f(params) T { x := …; …; return e }` into `(let p := a; let x := …; e)`
+func (t *rtr) inline(fd *ast.FuncDecl, args []ast.Expr) (string, ty, error) {
+	if fd.Type.Results == nil || len(fd.Type.Results.List) != 1 || len(fd.Type.Results.List[0].Names) > 1 {
+		return "", 0, fmt.Errorf("helper %s: exactly one result expected", fd.Name.Name)
+	}
+	rty, err := goTy(fd.Type.Results.List[0].Type)
+	if err != nil {
+		return "", 0, err
+	}
+	sub := &rtr{helpers: t.helpers, slices: map[string]sliceVal{}, env: map[string]ty{}, funcs: t.funcs}
+	var lets []string
+	i := 0
+	for _, fl := range fd.Type.Params.List {
+		for _, n := range fl.Names {
+			if i >= len(args) {
+				return "", 0, fmt.Errorf("helper %s: too few arguments", fd.Name.Name)
+			}
+			if at, ok := fl.Type.(*ast.ArrayType); ok && at.Len == nil && exprString(at.Elt) == "byte" {
+				v, err := t.sliceOf(args[i])
+				if err != nil {
+					return "", 0, err
+				}
+				sub.slices[n.Name] = v
+			} else {
+				pty, err := goTy(fl.Type)
+				if err != nil {
+					return "", 0, err
+				}
+				a, _, err := t.expr(args[i])
+				if err != nil {
+					return "", 0, err
+				}
+				sub.env[n.Name] = pty
+				lets = append(lets, fmt.Sprintf("let %s := %s", n.Name, a))
+			}
+			i++
+		}
+	}
+	res, err := sub.stmts(fd.Body.List, nil)
+	if err != nil {
+		return "", 0, fmt.Errorf("helper %s: %v", fd.Name.Name, err)
+	}
+	for _, l := range sub.lines {
+		lets = append(lets, strings.TrimSpace(l))
+	}
+	for _, l := range lets {
+		if !strings.HasPrefix(l, "let ") {
+			return "", 0, fmt.Errorf("helper %s: only assignments and a return are supported", fd.Name.Name)
+		}
+	}
+	res = strings.TrimSuffix(strings.TrimPrefix(res, "("), ")")
+	if len(lets) == 0 {
+		return "(" + res + ")", rty, nil
+	}
+	return "(" + strings.Join(lets, "; ") + "; " + res + ")", rty, nil
 }
 
 func exprString(e ast.Expr) string {
@@ -367,7 +480,16 @@ func (t *rtr) fn(fd *ast.FuncDecl, partialPanics bool) (string, error) {
 
 func trRandom(repo string) (string, error) {
 	fset := token.NewFileSet()
-	t := &rtr{funcs: map[string][]ty{}}
+	t := &rtr{funcs: map[string][]ty{}, helpers: map[string]*ast.FuncDecl{}, slices: map[string]sliceVal{}}
+	for _, file := range []string{"xorshift.go", "entropy.go"} {
+		if f, err := parser.ParseFile(fset, filepath.Join(repo, "middleware/pkg/random", file), nil, 0); err == nil {
+			for _, d := range f.Decls {
+				if fd, ok := d.(*ast.FuncDecl); ok && fd.Recv == nil && fd.Body != nil && !ast.IsExported(fd.Name.Name) {
+					t.helpers[fd.Name.Name] = fd
+				}
+			}
+		}
+	}
 	var sb strings.Builder
 	sb.WriteString("/- GENERATED by harness/tr from middleware/pkg/random/*.go — do not edit; regenerated on every check. -/\n")
 	sb.WriteString("namespace Gen.Random\n\n")
